@@ -109,7 +109,9 @@ func (mt *memtable) recover() int64 {
 	return maxVersion
 }
 
-func (mt *memtable) set(entry types.Entry) {
+// set entries as one batch: a single wal write (and sync),
+// so that after a crash the batch is recovered as a whole or not at all
+func (mt *memtable) set(entries ...types.Entry) {
 	mt.mu.Lock()
 	defer mt.mu.Unlock()
 
@@ -117,11 +119,15 @@ func (mt *memtable) set(entry types.Entry) {
 		mt.logger.Panicf("write readonly memtable")
 	}
 
-	mt.skiplist.Set(entry)
-	if err := mt.wal.Write(entry); err != nil {
+	for _, entry := range entries {
+		mt.skiplist.Set(entry)
+	}
+	if err := mt.wal.Write(entries...); err != nil {
 		mt.logger.Panicf("write wal failed: %v", err)
 	}
-	mt.logger.Infof("memtable set [key: %v] [value: %v] [tombstone: %v] [version: %v]", entry.Key, string(entry.Value), entry.Tombstone, entry.Version)
+	for _, entry := range entries {
+		mt.logger.Infof("memtable set [key: %v] [value: %v] [tombstone: %v] [version: %v]", entry.Key, string(entry.Value), entry.Tombstone, entry.Version)
+	}
 }
 
 func (mt *memtable) get(key types.Key) (types.Entry, bool) {
